@@ -246,6 +246,7 @@ func newSysWorld() *sysWorld {
 	w.kube = kubefake.NewSimpleClientset()
 	w.net = ccfake.NewSimpleClientset()
 	w.kube.PrependReactor("patch", "nodes", w.patchNodeReactor)
+	w.kube.PrependReactor("get", "nodes", w.getNodeReactor)
 	w.kube.PrependReactor("*", "events", func(a k8stesting.Action) (bool, runtime.Object, error) { return true, nil, nil })
 	w.net.PrependReactor("update", "clustercidrs", w.updateCCReactor)
 	w.net.PrependReactor("create", "clustercidrs", w.createCCReactor)
@@ -398,7 +399,7 @@ func (w *sysWorld) patchNodeReactor(a k8stesting.Action) (bool, runtime.Object, 
 	switch out {
 	case "ok":
 		return true, node.DeepCopy(), nil
-	case "tmo":
+	case "tmo", "tmn":
 		return true, nil, apierrors.NewServerTimeout(schema.GroupResource{Resource: "nodes"}, "patch", 1)
 	default:
 		if node == nil {
@@ -406,6 +407,28 @@ func (w *sysWorld) patchNodeReactor(a k8stesting.Action) (bool, runtime.Object, 
 		}
 		return true, nil, apierrors.NewInternalError(fmt.Errorf("scripted failure"))
 	}
+}
+
+// the controller reads a node back from the API server after a timed out write; the next scripted
+// outcome decides whether that read succeeds ("fail" = it does not)
+func (w *sysWorld) getNodeReactor(a k8stesting.Action) (bool, runtime.Object, error) {
+	name := a.(k8stesting.GetAction).GetName()
+	out := "ok"
+	if len(w.patchScript) > 0 {
+		if w.patchScript[0] == "fail" {
+			out = "fail"
+		}
+		w.patchScript = w.patchScript[1:]
+	}
+	w.effects = append(w.effects, fmt.Sprintf("getnode %s %s", name, out))
+	if out == "fail" {
+		return true, nil, apierrors.NewInternalError(fmt.Errorf("scripted failure"))
+	}
+	n := w.findNode(name)
+	if n == nil {
+		return true, nil, apierrors.NewNotFound(schema.GroupResource{Resource: "nodes"}, name)
+	}
+	return true, n.DeepCopy(), nil
 }
 
 func ccRestView(c *v1.ClusterCIDR) *v1.ClusterCIDR {
